@@ -18,6 +18,18 @@ def translate(repo):
         items.append(typed(cname + "_MAX_IO_CHUNK", "N", coq_n(val)))
         for fn in ("read", "write", "close"):
             items.append(shape("%s.%s" % (cname, fn), func_shape(find_func(cls, fn))))
+    # does PipeStream.read treat would-block (EAGAIN / EWOULDBLOCK on a non-blocking pipe) as transient, like SocketStream.read?
+    rd = find_func(find_class(tree, "PipeStream"), "read")
+    inner = [n for n in ast.walk(rd) if isinstance(n, ast.Try) and any("os.read(" in ast.unparse(b) for b in n.body)]
+    tolerant = False
+    for t in inner:
+        for h in t.handlers:
+            hb = [ast.unparse(x) for x in h.body]
+            if h.type is not None and ast.unparse(h.type) == "EnvironmentError" and hb == ["if get_exc_errno(sys.exc_info()[1]) in retry_errnos:\n    continue", "raise"]:
+                tolerant = True
+    items.append(typed("PipeStream_read_tolerates_wouldblock", "bool", coq_bool(tolerant)))
+    items.append(typed("retry_errnos_are_again_wouldblock", "bool",
+                       coq_bool(ast.unparse(find_assign(tree, "retry_errnos")) == "(errno.EAGAIN, errno.EWOULDBLOCK)")))
     items.append(shape("retry_errnos", ast.unparse(find_assign(tree, "retry_errnos"))))
     items.append(shape("ClosedFile", func_shape(find_class(tree, "ClosedFile")) if False else ast.unparse(find_class(tree, "ClosedFile"))))
     return items
